@@ -249,7 +249,7 @@ func (x *explorer) explore(prefix []step, depth int) {
 			x.part.ClassHash(sigHash(o))
 		}
 		if len(x.part.Samples) < 2 && len(prefix) > 0 {
-			x.part.Sample(map[string]any{"picks": picks(steps), "outcome": o.Kind, "log": trunc(o.Log, 12)})
+			x.part.Sample(map[string]any{"schedule": deviations(steps), "choice_points": len(steps), "threads": o.Threads, "outcome": o.Kind, "log": trunc(o.Log, 12)})
 		}
 		if x.isViolation(o) {
 			x.report(o, steps)
@@ -278,6 +278,20 @@ func (x *explorer) explore(prefix []step, depth int) {
 		up += cp
 		ue += ce
 	}
+}
+
+// deviations renders a choice sequence compactly: "choice#i->option" for every non-default pick.
+func deviations(s []step) string {
+	var sb strings.Builder
+	for i, st := range s {
+		if st.Pick != 0 {
+			fmt.Fprintf(&sb, "#%d->%d/%d ", i, st.Pick, st.N)
+		}
+	}
+	if sb.Len() == 0 {
+		return "default schedule"
+	}
+	return strings.TrimSpace(sb.String())
 }
 
 func picks(s []step) []int {
